@@ -169,4 +169,13 @@ Section Sweepers.
   Definition mi_update (Q1 Q2 : nat -> nat -> K) (u : nat -> V) (f : nat -> nat -> V) (tau : nat -> option V) :=
     mi_loop Q1 Q2 (mi_gather Q1 (u 0) f tau) (mi_Q2int Q2 f) (seq 1 M) (u, f).
 
+  (* RungeKutta.update_nodes (one part; IMEX-RK: two parts): stage m starts from u0 (no gather of old
+     values), adds dt*A[m,j]*f_j of the stages before it and solves with factor dt*A[m,m] unless A[m,m] = 0.
+     (The code's skip of the last right-hand-side evaluation for stiffly accurate non-embedded schemes
+     is not modelled: the value is never used.) *)
+  Definition rk_node_solve (A : nat -> nat -> K) (rhs : V) (m : nat) (uold : V) : V :=
+    if keqb (A m m) kO then rhs else solve 0 rhs (kmul dt (A m m)) uold (tn m).
+  Definition rk_update (np : nat) (QDs : nat -> nat -> nat -> K) (u : nat -> V) (f : nat -> nat -> V) :=
+    sweep_loop kO kadd kmul dt t0 nodes np feval QDs (rk_node_solve (QDs 0)) 1 (fun _ => u 0) (seq 1 M) (u, f).
+
 End Sweepers.
